@@ -45,7 +45,7 @@ CFG = {
 
 @st.composite
 def _scn(draw):
-    tree_extra = draw(st.sampled_from([None, "prefix", "prefix", "deep", "deep", "samename"]))
+    tree_extra = draw(st.sampled_from([None, "prefix", "prefix", "deep", "deep", "samename", "sf_failing_first"]))
     scn = draw(st.one_of(hist.scenarios(CFG), hist.scenarios(dict(CFG, final=["create_sf"]))))
     used = hist.top_names_used(scn)
     if tree_extra == "prefix":
@@ -65,6 +65,16 @@ def _scn(draw):
         for d in draw(st.permutations(names)):
             pre.append({"op": "create", "root": d, "formats": draw(gen.formats(2)), "flags": []})
         scn["samename"] = True
+    if tree_extra == "sf_failing_first" and not ({"fa", "fb", "fc"} & used):
+        # one -sf run names files of three histories; the first named file was altered (exit 11) - the others are sealed
+        # and their histories written all the same
+        scn["tree"]["fa"] = {"a1.txt": "a1", "a2.txt": "a2"}
+        scn["tree"]["fb"] = {"b1.txt": "b1"}
+        scn["tree"]["fc"] = {"fd": {"d1.txt": "d1"}, "c1.txt": "c1"}
+        for d in draw(st.permutations(["fa", "fb", "fc/fd"])):
+            pre.append({"op": "create", "root": d, "formats": ["md5"], "flags": []})
+        scn["steps"] = scn["steps"] + [{"op": "create", "root": "", "formats": ["md5"], "flags": []}, {"op": "overwrite", "path": "fa/a1.txt", "spec": "altered"},
+                                       {"op": "create_sf", "root": "", "formats": ["md5"], "flags": [], "sf": ["fa/a1.txt"] + draw(st.permutations(["fb/b1.txt", "fc/fd/d1.txt", "fa/a2.txt"]))}]
     dirs = [d for d in gen.tree_dirs(scn["tree"]) if isinstance(_node(scn["tree"], d), dict)]
     if tree_extra in ("prefix", "deep") and dirs:
         picks = draw(st.lists(st.sampled_from(dirs), min_size=1, max_size=min(4, len(dirs)), unique=True))
